@@ -15,7 +15,7 @@ TWO_PHASE = True
 SHARDS = 16
 RULE = ("case = one scripted session over a real Connection (Builder::authenticated_socket on a scripted Socket, p2p or bus, "
         "internal_executor(false)) + ONE fault: end-of-file or ECONNRESET at byte position p of the inbound stream, for EVERY p of the "
-        "session (quick: every byte of the main session, every 2nd-3rd byte of the other two), or ECONNABORTED at sendmsg call j, for "
+        "session (quick: every byte of the main session, every 2nd-3rd byte of the other two plus their last positions), or ECONNABORTED at sendmsg call j, for "
         "EVERY j (after which reads fail too). Main session: 2 streams with different rules, 3 pending calls (one never answered), "
         "6 inbound messages (~800 bytes: signals, a reply, an error reply), 5 outbound messages, then a later call, later "
         "subscriptions (existing rule, new rule) and a later unfiltered stream. Second session: a paused consumer with max_queued=1 "
@@ -93,8 +93,8 @@ def gen(rng, tier):
     quick = tier == "quick"
     cases = []
     cases += _cases(rng, "p", S_MAIN, 1, 1 if quick else 3)
-    cases += _cases(rng, "p", S_BACK, 2 if quick else 1, 1 if quick else 3)
-    cases += _cases(rng, "b", S_BUS, 1, 1 if quick else 3)
+    cases += _cases(rng, "p", S_BACK, 3 if quick else 1, 1 if quick else 3)
+    cases += _cases(rng, "b", S_BUS, 2 if quick else 1, 1 if quick else 3)
     if not quick:
         cases += _cases(rng, "p", S_ALT, 1, 3)
         cases += _cases(rng, "b", S_MAIN, 2, 1)
